@@ -446,6 +446,52 @@ pub fn c10_set_provided<const N: usize>() {
     vf::check(tok::balanced(), 302);
 }
 
+/// provided methods on a drain, judged by the ledger and the model alone (no twin container, so it is cheap enough for the
+/// quick tier): whatever `nth` / `last` / `count` / `fold` / `for_each` skip, every drained element is destroyed exactly
+/// once, results are stored associations, and the map is empty afterwards
+pub fn c10_drain_methods<const N: usize>() {
+    tok::reset();
+    let (mut m, md) = any_map::<N>();
+    let (which, k, j) = (vf::any_u8(), vf::any_usize(), vf::any_usize());
+    vf::assume(which < 4 && k <= N && j <= N);
+    let is_assoc = |x: &(Tok, Tok)| -> bool { match md.find(x.0.key()) { Some(i) => x.0.serial() == md.ks[i] && x.1.serial() == md.vs[i], None => false } };
+    {
+        let mut d = m.drain();
+        let mut i = 0usize;
+        let mut taken = 0usize;
+        while i < N { if i < j { if let Some(x) = d.next() { vf::check(is_assoc(&x), 605); taken += 1; } } i += 1; }
+        let rest = md.n - taken;
+        match which {
+            0 => { vf::reach(1); let r = d.nth(k); vf::check(r.is_some() == (k < rest), 621); if let Some(x) = &r { vf::check(is_assoc(x), 621); }
+                   vf::check(d.len() == rest.saturating_sub(k + 1), 625); drop(r); }
+            1 => { vf::reach(2); let r = d.last(); vf::check(r.is_some() == (rest > 0), 622); if let Some(x) = &r { vf::check(is_assoc(x), 622); } drop(r); }
+            2 => { vf::reach(3); vf::check(d.count() == rest, 623); }
+            _ => { vf::reach(4); let c = d.fold(0usize, |c, x| { vf::check(is_assoc(&x), 624); c + 1 }); vf::check(c == rest, 624); }
+        }
+    }
+    vf::check(m.len() == 0 && m.is_empty(), 612);
+    drop(m);
+    vf::check(tok::balanced(), 302);
+}
+pub fn c10_set_drain_methods<const N: usize>() {
+    tok::reset();
+    let (mut s, md) = any_set::<N>();
+    let (which, k) = (vf::any_u8(), vf::any_usize());
+    vf::assume(which < 4 && k <= N);
+    {
+        let mut d = s.drain();
+        match which {
+            0 => { vf::reach(1); let r = d.nth(k); vf::check(r.is_some() == (k < md.n), 621); if let Some(x) = &r { vf::check(md.has(x.key()), 621); } drop(r); }
+            1 => { vf::reach(2); let r = d.last(); vf::check(r.is_some() == (md.n > 0), 622); drop(r); }
+            2 => { vf::reach(3); vf::check(d.count() == md.n, 623); }
+            _ => { vf::reach(4); let c = d.fold(0usize, |c, x| { vf::check(md.has(x.key()), 624); c + 1 }); vf::check(c == md.n, 624); }
+        }
+    }
+    vf::check(s.len() == 0, 612);
+    drop(s);
+    vf::check(tok::balanced(), 302);
+}
+
 /// Default iterators are empty (and, for the owning ones, own nothing)
 pub fn c09_defaults<const N: usize>() {
     tok::reset();
@@ -477,6 +523,8 @@ harnesses! {
     c09_set_provided: [1] [2] [3];
     c10_provided: [1, 0] [2, 0] [3, 0] [1, 1] [2, 1] [1, 2] [2, 2];
     c10_set_provided: [1] [2] [3];
+    c10_drain_methods: [1] [2] [3];
+    c10_set_drain_methods: [1] [2] [3];
     c10_into_iter: [0] [1] [2] [3];
     c10_into_keys: [0] [1] [2] [3];
     c10_into_values: [0] [1] [2] [3];
@@ -484,6 +532,8 @@ harnesses! {
     c10_drain: [0] [1] [2] [3];
     c10_set_drain: [0] [1] [2] [3];
     @deep
+    c10_drain_methods: [4] [5];
+    c10_set_drain_methods: [4] [5];
     c09_provided: [4];
     c09_set_provided: [4];
     c10_provided: [1, 3] [2, 3] [3, 1] [3, 2] [4, 0];
